@@ -801,6 +801,114 @@ func partC(run *hx.Run, r *hx.Rand, tmpRoot string) {
 	}
 }
 
+// partE: dedicated binary scenarios — image input with permuted --path, nested --type
+// filters (the include set is a Go map in bufimageutil), and a workspace large enough for the
+// chunked parallel paths (bufprotosource.NewFiles converts in chunks from 8 files per worker).
+func partE(run *hx.Run, r *hx.Rand, tmpRoot string, bufBin string) {
+	runBuf := func(dir string, gmp string, args ...string) []byte {
+		c := exec.Command(bufBin, args...)
+		c.Dir = dir
+		c.Env = append(os.Environ(), "HOME="+tmpRoot, "BUF_CACHE_DIR="+filepath.Join(tmpRoot, "cache"))
+		if gmp != "" {
+			c.Env = append(c.Env, "GOMAXPROCS="+gmp)
+		}
+		var stdout, stderr bytes.Buffer
+		c.Stdout, c.Stderr = &stdout, &stderr
+		err := c.Run()
+		code := 0
+		var ee *exec.ExitError
+		if errors.As(err, &ee) {
+			code = ee.ExitCode()
+		} else if err != nil {
+			code = -1
+		}
+		run.Eval()
+		return append([]byte(fmt.Sprintf("exit=%d\n--stdout\n%s\n--stderr\n", code, stdout.Bytes())), stderr.Bytes()...)
+	}
+	rp := fmt.Sprintf("build/c02 --out /tmp/c02-replay --seed %d --tier %s", run.Seed, run.Tier)
+	rounds := run.N(2, 10)
+	for i := 0; i < rounds; i++ {
+		cr := r.Fork(uint64(i))
+		dir := filepath.Join(tmpRoot, "e"+strconv.Itoa(i))
+		must0(os.MkdirAll(filepath.Join(dir, "p"), 0o755))
+		must0(os.WriteFile(filepath.Join(dir, "buf.yaml"), []byte("version: v2\n"), 0o644))
+		// nested types + a service, a chain of imports
+		must0(os.WriteFile(filepath.Join(dir, "p", "t.proto"), []byte("syntax = \"proto3\";\npackage p;\nmessage Outer {\n  message Inner { int32 a = 1; }\n  Inner i = 1;\n  int32 z = 2;\n  enum E { E_UNSPECIFIED = 0; }\n}\nmessage Other { Outer o = 1; }\nservice Svc {\n  rpc One(Outer) returns (Other);\n  rpc Two(Other) returns (Outer);\n}\n"), 0o644))
+		// 25, 27 or 29 files in all (with t.proto): the conversion is chunked (>= 8 files per
+		// worker) for 2 and 3 workers, and the file count is not a multiple of the worker count
+		nFiles := 24 + 2*cr.Intn(3)
+		var names []string
+		for k := 0; k < nFiles; k++ {
+			name := fmt.Sprintf("p/f%02d.proto", k)
+			names = append(names, name)
+			imp := ""
+			if k > 0 && cr.Chance(1, 2) {
+				imp = fmt.Sprintf("import \"p/f%02d.proto\";\n", cr.Intn(k))
+			}
+			// every file carries its own lint findings (lower-case message name, field not snake case)
+			must0(os.WriteFile(filepath.Join(dir, name), []byte(fmt.Sprintf("syntax = \"proto3\";\npackage p;\n%smessage bad_%02d { int32 camelCase = 1; }\n", imp, k)), 0o644))
+		}
+		// (1) many files: lint / build / ls-files under different core counts
+		for _, args := range [][]string{{"lint", "--error-format=json"}, {"build", "-o", "-"}, {"ls-files"}, {"breaking", "--against", ".", "--error-format=json"}} {
+			var ref []byte
+			for vi, gmp := range []string{"1", "2", "3", "4", "16", "2", ""} {
+				res := runBuf(dir, gmp, args...)
+				run.Distinct(fmt.Sprintf("E-big-%d-%s-%d", i, args[0], vi))
+				run.Count("E:many-files buf " + args[0])
+				if vi == 0 {
+					ref = res
+				} else if !bytes.Equal(ref, res) {
+					run.Fail(hx.OracleFailure{Class: "binary-nondeterministic-manyfiles-" + args[0], What: fmt.Sprintf("`buf %s` on a %d-file module differs between GOMAXPROCS=1 and GOMAXPROCS=%q: %d vs %d bytes", strings.Join(args, " "), nFiles+1, gmp, len(ref), len(res)), Input: map[string]any{"files": nFiles + 1, "args": args}, Replay: rp})
+					break
+				}
+			}
+		}
+		// (2) nested --type includes, repeated (map iteration order)
+		for ti, types := range [][]string{{"p.Outer", "p.Outer.Inner"}, {"p.Svc", "p.Svc.One"}, {"p.Outer.Inner", "p.Outer", "p.Outer.E"}} {
+			var ref []byte
+			for rep := 0; rep < 16; rep++ {
+				args := []string{"build", "-o", "-"}
+				ts := append([]string{}, types...)
+				if rep%2 == 1 {
+					for a, b := 0, len(ts)-1; a < b; a, b = a+1, b-1 {
+						ts[a], ts[b] = ts[b], ts[a]
+					}
+				}
+				for _, t := range ts {
+					args = append(args, "--type", t)
+				}
+				res := runBuf(dir, "", args...)
+				run.Distinct(fmt.Sprintf("E-type-%d-%d-%d", i, ti, rep))
+				run.Count("E:type-filter")
+				if rep == 0 {
+					ref = res
+				} else if !bytes.Equal(ref, res) {
+					run.Fail(hx.OracleFailure{Class: "binary-nondeterministic-type-filter", What: fmt.Sprintf("`buf build --type %s` gives different images on repeated runs / for permuted --type order (%d vs %d bytes)", strings.Join(types, " --type "), len(ref), len(res)), Input: map[string]any{"types": types}, Replay: rp})
+					break
+				}
+			}
+		}
+		// (3) image input with permuted --path
+		img := filepath.Join(dir, "img.binpb")
+		if out := runBuf(dir, "", "build", "-o", img); !bytes.HasPrefix(out, []byte("exit=0")) {
+			panic("cannot build image: " + string(out))
+		}
+		pa, pb := names[len(names)-1], names[0]
+		x := runBuf(dir, "", "build", img, "--path", pa, "--path", pb, "-o", "-")
+		y := runBuf(dir, "", "build", img, "--path", pb, "--path", pa, "-o", "-")
+		run.Count("E:image-path-order")
+		if !bytes.Equal(x, y) {
+			run.Fail(hx.OracleFailure{Class: "image-path-order-dependent", What: fmt.Sprintf("`buf build IMAGE --path %s --path %s` and the same with the two --path flags swapped give different images", pa, pb), Input: map[string]any{"paths": []string{pa, pb}}, Replay: rp})
+		}
+		sx := runBuf(dir, "", "build", ".", "--path", pa, "--path", pb, "-o", "-")
+		sy := runBuf(dir, "", "build", ".", "--path", pb, "--path", pa, "-o", "-")
+		if !bytes.Equal(sx, sy) {
+			run.Fail(hx.OracleFailure{Class: "binary-path-order-sources", What: "building the sources with swapped --path flags gives different images", Input: map[string]any{"paths": []string{pa, pb}}, Replay: rp})
+		}
+		os.RemoveAll(dir)
+	}
+}
+
 func main() {
 	run := hx.Start("C02")
 	r := hx.NewRand(run.Seed)
@@ -813,6 +921,9 @@ func main() {
 		partB(run, r.Fork(2))
 		partD(run, r.Fork(4))
 		partC(run, r.Fork(3), tmpRoot)
+		if _, err := os.Stat(filepath.Join(tmpRoot, "buf")); err == nil {
+			partE(run, r.Fork(5), tmpRoot, filepath.Join(tmpRoot, "buf"))
+		}
 	} else {
 		partB(run, r.Fork(2))
 	}
